@@ -308,10 +308,28 @@ def period_first_principles(c, uf, ub, wd, rd, kmax=None):
 # conveniences used by the property checkers
 # ---------------------------------------------------------------------------
 
+def cost_scale(p):
+    """Least common denominator of a cost vector (at least SCALE)."""
+    from math import lcm
+    return lcm(SCALE, *(Fraction(p[k]).denominator
+                        for k in ("uf", "ub", "wd", "rd")))
+
+
+def costs_exact_in_binary(p):
+    """True iff every cost is a multiple of 1/SCALE, i.e. the library's
+    floating-point tables are exact and 'equals the optimum' can be judged
+    without a tolerance."""
+    return cost_scale(p) == SCALE
+
+
 def expected_cost(cls, N, p):
     """Expected makespan (Fraction) of a complete single-pass stream of an
-    H-Revolve family class, or None where no equality is claimed."""
-    uf, ub, wd, rd = (to_units(p[k]) for k in ("uf", "ub", "wd", "rd"))
+    H-Revolve family class, or None where no equality is claimed.  The
+    recurrences run in exact integers in units of 1/scale, scale = common
+    denominator of the cost vector."""
+    scale = cost_scale(p)
+    uf, ub, wd, rd = (int(Fraction(p[k]) * scale)
+                      for k in ("uf", "ub", "wd", "rd"))
     l = N - 1
     if cls == "Revolve":
         m = opt0(l, p["s"], uf, ub)
@@ -321,4 +339,4 @@ def expected_cost(cls, N, p):
         m = hopt(l, p["s"], p["d"], uf, ub, wd, rd)
     else:
         return None
-    return Fraction(m + N * uf, SCALE)
+    return Fraction(m + N * uf, scale)
